@@ -40,7 +40,7 @@ func symRecord(id string, klen int) (*ae.EnvelopeKeyRecord, int64) {
 }
 
 func rowOf(id string, c int64, rec *ae.EnvelopeKeyRecord) *row {
-	r := &row{id: id, created: c, key: append([]byte(nil), rec.EncryptedKey...), revoked: rec.Revoked}
+	r := &row{id: id, created: c, recC: rec.Created, key: append([]byte(nil), rec.EncryptedKey...), revoked: rec.Revoked}
 	if rec.ParentKeyMeta != nil {
 		r.hasPM, r.pmID, r.pmC = true, rec.ParentKeyMeta.ID, rec.ParentKeyMeta.Created
 	}
